@@ -141,6 +141,14 @@ def adversarial(rng, prog, opts=None):
                 nm = rng.choice(PARAM_POOL)
             seen.add(nm)
             out.append(nm)
+        if rng.random() < opts.get("p_named_results", 0.3):
+            # named results, called like the variables Wire invents
+            u.inj["resnames"] = [rng.choice(["out", "res", "v", "arg"]), rng.choice(["cleanup", "cleanup", "cleanup2", "done", "err2"]),
+                                 rng.choice(["err", "err", "err2", "e", "cleanup3"])]
+            if not u.inj["cleanup"]:
+                u.inj["resnames"] = [u.inj["resnames"][0], u.inj["resnames"][2]]
+            if len(set(u.inj["resnames"])) != len(u.inj["resnames"]):
+                u.inj["resnames"] = None
         if n >= 2 and rng.random() < opts.get("p_blank_then_local", 0.3):
             # func Init(_ Foo, foo Bar): the blank parameter gets a name derived from its type, which the next one already has
             k = rng.randrange(1, n)
